@@ -40,7 +40,8 @@ SHAPES = {
 
 
 def trig(task, flow, wait=False):
-    kw = {'tasks': [f'1/{task}'], 'flow': [flow] if flow else []}
+    kw = {'tasks': [f'1/{task}'],
+          'flow': list(flow) if isinstance(flow, list) else [flow]}
     if wait:
         kw['flow_wait'] = True
     return ('force_trigger_tasks', kw)
@@ -62,44 +63,74 @@ def setpre(task, flow, wait=False):
     return ('set', kw)
 
 
+PAUSED = {'options': {'paused_start': True}}
+
+
 def rows(tier: str):
-    """(name, shape, [ops of command 1, ops of command 2, ...])."""
+    """(name, shape, [ops of command 1, ops of command 2, ...], restarts,
+    where each command is offered, extra spec)."""
     q = [
-        # new flows: numbers unique, also after a restart and after an
-        # explicit out-of-sequence number
-        ('chain-new-new', 'chain',
-         [[trig(a, 'new')], [trig(a, 'new'), trig(c, 'new')]]),
-        ('chain-3-new', 'chain',
-         [[trig(c, '3'), trig(c, '2')], [trig(a, 'new'), setout(b, 'new')]]),
-        # a flow reaching finished tasks again; merges of flows
+        # new flows: numbers unique across a restart, also after an explicit
+        # number. Paused workflow: only triggered tasks run, the original
+        # flow waits (small space; nothing of flow 2 is left in the pool)
+        ('paused-new-restart-new', 'chain2',
+         [[trig(b, 'new'), trig(b, '2')], [trig(b, 'new')]], 1,
+         ['any', 'any'], PAUSED),
+        # the same in a running workflow
+        ('c2-new-restart-new', 'chain2',
+         [[trig(b, 'new')], [trig(b, 'new')]], 1,
+         ['early', 'after-restart'], {}),
+        # a second flow chasing the first one: spawning, merging
+        ('chain-new', 'chain', [[trig(a, 'new')]], 0, None, {}),
+        ('diamond-new', 'diamond', [[trig(a, 'new')]], 0, None, {}),
+        # a flow reaching finished tasks again
         ('chain-rerun', 'chain',
-         [[trig(a, '1'), trig(a, 'all')], [trig(b, 'new'), setpre(c, '1')]]),
-        ('diamond-new', 'diamond',
-         [[trig(a, 'new')], [trig(b, 'all')]]),
-        # no-flow and flow-wait
-        ('chain-none', 'chain',
-         [[trig(b, 'none'), trig(a, '2', True)],
-          [trig(a, 'new'), trig(a, 'all')]]),
+         [[trig(a, '1'), trig(a, 'all'), trig(b, ['1', '2'])]], 0, None, {}),
+        # no-flow task absorbed by the flow; flow-wait; cylc set
+        ('chain-none', 'chain', [[trig(b, 'none')]], 0, None, {}),
+        ('chain-wait', 'chain',
+         [[trig(b, '1', True), trig(b, '2', True)]], 0, None, {}),
+        ('chain-set', 'chain',
+         [[setout(b, 'new'), setpre(c, 'new'), setout(a, '1', True)]], 0,
+         None, {}),
     ]
-    if tier == 'probe':
-        return [
-            ('p0', 'chain2', [[trig(b, 'new'), trig(b, '2')], [trig(b, 'new')]], 1, ['early', 'after-restart']),
-            ('p1', 'chain', [[trig(a, 'new')]], 0),
-            ('p2', 'chain', [[trig(a, '1'), trig(a, 'all')]], 0),
-            ('p3', 'chain', [[trig(b, 'none')]], 0),
-        ]
     if tier == 'quick':
         return q
-    return q
+    return q + [
+        ('paused-budget3', 'chain2',
+         [[trig(b, 'new'), trig(b, '3')], [trig(b, 'new'), trig(a, 'new')],
+          [trig(b, 'new')]], 1, None, PAUSED),
+        ('c2-3-new-new', 'chain2',
+         [[trig(b, '3')], [trig(b, 'new')], [trig(b, 'new')]], 1,
+         ['early', 'any', 'any'], {}),
+        ('chain-new-new-r', 'chain',
+         [[trig(a, 'new')], [trig(a, 'new'), trig(c, 'new')]], 1, None, {}),
+        ('chain-3-new-r', 'chain',
+         [[trig(c, '3'), trig(c, '2')], [trig(a, 'new'), setout(b, 'new')]],
+         1, None, {}),
+        ('chain-rerun-r', 'chain',
+         [[trig(a, '1'), trig(a, 'all')], [trig(b, 'new'), setpre(c, '1')]],
+         1, None, {}),
+        ('diamond-new-all-r', 'diamond',
+         [[trig(a, 'new')], [trig(b, 'all')]], 1, None, {}),
+        ('chain-none-r', 'chain',
+         [[trig(b, 'none'), trig(a, '2', True)],
+          [trig(a, 'new'), trig(a, 'all')]], 1, None, {}),
+        ('ordiamond-new', 'ordiamond',
+         [[trig(a, 'new')], [trig(b, '1')]], 0, None, {}),
+        ('chain-set-set', 'chain',
+         [[setout(a, 'new'), setpre(c, '2')],
+          [setout(b, '1', True), trig(a, 'all')]], 0, None, {}),
+    ]
 
 
 def catalogue(tier: str):
     out = []
-    for name, shape, op_lists, *rest in rows(tier):
-        sp = spec_from([('P1', SHAPES[shape])], 1, 1, name=name)
+    for name, shape, op_lists, restarts, whens, extra in rows(tier):
+        sp = spec_from([('P1', SHAPES[shape])], 1, 1, name=name, **extra)
         sp['op_lists'] = op_lists
-        sp['restarts'] = rest[0] if rest else 1
-        sp['whens'] = rest[1] if len(rest) > 1 else None
+        sp['restarts'] = restarts
+        sp['whens'] = whens
         out.append(sp)
     return out
 
@@ -119,13 +150,14 @@ def run(ctx: Ctx) -> Result:
     COUNT.clear()
     st = explore_all(
         ctx, [make_factory(s, ctx.tier) for s in specs],
-        max_states=ctx.pick(6000, 60000), max_seconds=ctx.pick(110, 1500))
+        max_states=ctx.pick(6000, 60000), max_seconds=ctx.pick(1500, 6000))
     seen = COUNT.collect()
     if not st.violations and not st.error:
         for k in ('new-flow-allocations', 'new-flow-allocations-after-restart',
                   'children-spawned', 'children-merged', 'merges',
                   'children-spawned-by-multi-flow-parent',
                   'finished-complete-recorded', 'restarts',
+                  'finished-child-not-respawned', 'children-retro-spawned',
                   'submissions-of-previously-finished-instances'):
             if not seen.get(k):
                 raise HarnessError(f'vacuous: no {k} in the whole exploration')
